@@ -494,6 +494,53 @@ def builders(r, n=None):
     return b
 
 
+INTRINS = [  # (name, immediates, number of 128-bit operands, operand kinds)
+    ("add_epi64", [0], 2, "vv"), ("sub_epi64", [0], 2, "vv"), ("sub_epi32", [0], 2, "vv"), ("mul_epu32", [0], 2, "vv"),
+    ("andnot_si128", [0], 2, "vv"), ("shuffle_epi8", [0], 2, "vm"), ("shuffle_epi32", [177, 27], 1, "v"),
+    ("srli_epi64", [1, 32, 62, 63, 64], 1, "v"), ("slli_epi64", [1, 63, 64], 1, "v"), ("slli_si128", [0, 8, 15, 16], 1, "v"),
+    ("insert_epi32", [0, 1, 2, 3], 2, "vs"), ("sll_epi32", [0], 2, "vc"), ("srl_epi32", [0], 2, "vc"),
+    ("sllv_epi32", [0], 2, "vC"), ("srlv_epi32", [0], 2, "vC"), ("cmpgt_epi32", [0], 2, "vv"), ("cmpeq_epi64", [0], 2, "ve"),
+    ("unpacklo_epi64", [0], 2, "vv"), ("cvtsi64_si128", [0], 1, "s"), ("cvtsi32_si128", [0], 1, "s"), ("set1_epi32", [0], 1, "s"),
+    ("maskload_epi32", [0], 2, "vM"), ("loadl_epi64", [0], 1, "v"), ("broadcastd_epi32", [0], 1, "v"),
+    ("permutevar8x32_epi32", [0], 4, "vvpp"), ("slli256_si256", [8], 2, "vv"), ("shuffle256_epi8", [0], 4, "vvmm"),
+    ("inserti128_si256", [0, 1], 3, "vvv"),
+]
+
+
+def v128(r):
+    return (edge64(r) << 64) | edge64(r)
+
+
+def intrin_cases(r, reps=6):
+    """single-intrinsic conformance: modelled semantics vs the real instruction, incl. the regimes the
+    crate does not use (shift counts >= 32, shuffle indices with the high bit, all 16 maskload masks)"""
+    b = B("intrin", ["intrin"])
+    for name, imms, nops, kinds in INTRINS:
+        for imm in imms:
+            for rep in range(reps):
+                ops = []
+                for k in kinds:
+                    if k == "v":
+                        ops.append(v128(r))
+                    elif k == "e":      # equal to the previous operand half of the time
+                        ops.append(ops[-1] if r.random() < 0.5 else (ops[-1] & ((1 << 64) - 1)) | (r.getrandbits(64) << 64))
+                    elif k == "m":      # shuffle control bytes incl. high-bit and >15 indices
+                        ops.append(int.from_bytes(bytes(r.choice((r.randrange(16), 0x80 | r.randrange(128), r.randrange(16, 128))) for _ in range(16)), "little"))
+                    elif k == "s":      # scalar in the low bits
+                        ops.append(r.choice((0, 1, 0x7FFFFFFF, 0x80000000, 0xFFFFFFFF, r.getrandbits(32), r.getrandbits(64))))
+                    elif k == "c":      # shift count register: low 64 bits matter
+                        ops.append(r.choice((0, 1, 5, 31, 32, 33, 64, 1 << 32, (1 << 64) - 1, r.randrange(40))) | (r.getrandbits(64) << 64))
+                    elif k == "C":      # per-lane counts
+                        ops.append(sum(r.choice((0, 1, 31, 32, 33, 255, 0x80000000, 0xFFFFFFFF, r.randrange(40))) << (32 * i) for i in range(4)))
+                    elif k == "M":      # maskload masks: all sign-bit patterns
+                        m = (rep * 5 + imm) % 16 if rep < 16 else r.randrange(16)
+                        ops.append(sum(((0x80000000 if (m >> i) & 1 else 0) | r.getrandbits(31)) << (32 * i) for i in range(4)))
+                    elif k == "p":      # permute indices (only low 3 bits count)
+                        ops.append(sum(r.getrandbits(32) << (32 * i) for i in range(4)))
+                b.op(f"intrin {name} {imm} " + " ".join(f"{o:032x}" for o in ops))
+    return b
+
+
 def adapters(r, sels, force=False, std=True):
     """Hasher::finish repeatable/interleavable, io::Write::write consumes everything, flush is a no-op"""
     sel = r.choice(sels)
